@@ -319,7 +319,8 @@ def random_file(item):
         try:
             rows, fields, _ = load_file(data, root, **kw)
         except Exception as e:
-            return dict(raised='%s: %s' % (type(e).__name__, str(e)[:150]))
+            return dict(raised='%s: %s' % (type(e).__name__, str(e)[:150]), cause=str(getattr(e, 'cause', e))[-400:],
+                        bytes=[ord(ch) for ch in data.decode('utf8')], strip=strip, limit=limit)
         names = [f['name'] for f in fields]
         return dict(bytes=[ord(ch) for ch in data.decode('utf8')], strip=strip, limit=limit,
                     names=[[ord(ch) for ch in n] for n in names],
@@ -450,6 +451,13 @@ def run():
     for it, x in zip(ritems, recs):
         if 'raised' in x:
             rep.count(1, traces=1)
+            # the known finding can also end in an error: under the GUESSED dialect the first line splits into cells that repeat, and load
+            # rejects duplicate headers - recognised by exactly that: the third-party reader's own header row, read with the dialect it
+            # guessed (not the default one), has duplicates and load's message quotes that header row
+            differs, shdr, _ = sniffed_decode(txt(x['bytes']).encode('utf8'), x['strip'], x['limit'])
+            if differs and shdr is not None and len(set(shdr)) != len(shdr) and 'Found duplicate headers' in x.get('cause', '') and ('found headers=%r' % shdr) in x.get('cause', ''):
+                rep.known(KF_SNIFF, 'load() guesses the CSV dialect (the header row splits into repeating cells under the guessed dialect: duplicate headers)', dict(file=txt(x['bytes'])[:200]))
+                continue
             rep.violation(it, dict(why='load raised on a well-formed file', raised=x['raised']), category='random/raised')
         else:
             good.append((it, x))
